@@ -119,7 +119,7 @@ ENGINE = RestrictEngine(
     sizes={"quick": (16, 3000), "thorough": (64, 20000)},
     rule="each case = one hwloc_topology_restrict(set, flags) on the current state of a loaded topology (generated synthetic "
          "strings incl. attached NUMA nodes and memory-side caches, bundled XML files with I/O objects, Misc objects inserted below "
-         "random parents, custom allowed sets; type filters: default / all KEEP_ALL but Group / KEEP_STRUCTURE everywhere / I/O "
+         "random parents, user Groups (with and without dont_merge) inserted above random objects, custom allowed sets; type filters: default / all KEEP_ALL but Group / KEEP_STRUCTURE everywhere / I/O "
          "kept / random); sets: subset, superset, disjoint, infinite, straddling siblings, single PU/node, one NUMA node, all "
          "but one object/package, object sets, the other kind of set; all 32 flag words plus invalid bits; 1-4 calls "
          "per topology; distinct = distinct (set, flags, result) triples")
